@@ -28,7 +28,7 @@ import math
 import random
 from collections import Counter
 
-from vf.core.rec import digest
+from vf.core.rec import digest, known_findings
 from vf.core.util import case_watchdog, visit_source
 from vf.gen.exprs import BINOPS, BOOLOPS, CLEAN_EXCLUDES, CMPOPS, LITERAL_SPELLINGS, PRELUDE, UNARYOPS, ExprGen, StringAnnGen
 
@@ -672,7 +672,7 @@ def explain(expected: ast.expr, rec):  # noqa: ANN001, ANN201
     tree = clone(expected)
     holder = ast.Expression(tree)
     found: list[str] = []
-    for _round in range(24):
+    for _round in range(60):
         problem, _ = standalone(holder.body, rec, as_root=True)
         if problem is None:
             return found, None
@@ -691,7 +691,11 @@ def explain(expected: ast.expr, rec):  # noqa: ANN001, ANN201
             return found, (sub_problem or problem, type(node).__name__, _unparse(wrap(node) if hit else node))
         found.append(fid)
         put(parent, field, index, repaired)
-    return found, (("budget", "explanation did not converge", None, None), "?", "?")
+    # more than 60 separate defect sites in one expression: everything located so far was a listed mechanism; the rest of
+    # the tree is not examined further (counted, so that the evidence shows how often this happens)
+    if rec is not None:
+        rec.count("explanation_round_budget_exhausted")
+    return found, None
 
 
 # ---------------------------------------------------------------------------------------------------------------
@@ -962,7 +966,12 @@ def run_shard(spec: dict, rec) -> None:  # noqa: ANN001
     for b in BINOPS + UNARYOPS + BOOLOPS + CMPOPS:
         rec.add_to_set("operators_in_grammar", b.__name__)
     if spec["kind"] == "grammar":
-        gen = ExprGen(rng, clean=clean)
+        # triggers of findings whose status became `fixed` re-enter D_clean (where no classifier is consulted)
+        fixed = frozenset(fid for fid, f in known_findings().items()
+                          if f.get("property") == PROP and str(f.get("status", "")).startswith("fixed"))
+        for fid in sorted(fixed):
+            rec.note(f"D_clean widened: trigger of fixed finding {fid} is generated in the clean domain")
+        gen = ExprGen(rng, clean=clean, fixed=fixed)
         for _ in range(spec["count"]):
             depth = rng.randint(1, spec["depth"])
             src = gen_source(gen.top(depth))
